@@ -345,7 +345,8 @@ func c12Worker(c *Ctx) {
 	}
 	fn := f.Function
 	b := ana.NewBuilder(c.P, fn)
-	hit := plainEdges(edgesMatching(b, "bin<<>(call<*>(_, _, p3, p4), 64)"))
+	WS := itoa(int64(c.wordBits()))
+	hit := plainEdges(edgesMatching(b, "bin<<>(call<*>(_, _, p3, p4), "+WS+")"))
 	for _, e := range ana.Exits(fn) {
 		if e.Panic {
 			es := plainEdges(edgesMatching(b, "bin<>>(p3, 243)"))
@@ -354,7 +355,7 @@ func c12Worker(c *Ctx) {
 		}
 		if b.Of(e.Results[1], e.Instr).Is("nil") {
 			vt := b.Of(e.Results[0], e.Instr)
-			_, ok := ana.Match("bin<+>(ind<+64>(p2), conv<uint64>(call<*>(_, _, p3, p4)))", vt)
+			_, ok := ana.Match("bin<+>(ind<+"+WS+">(p2), conv<uint64>(call<*>(_, _, p3, p4)))", vt)
 			r.Check(ok && mustPass(fn, e.Instr.Block(), hit), "C12.return.nonce", c.ipos(e.Instr), "returned nonce = batch base + lane index, only when the lane test found a lane: %s", short(vt.String(), 140))
 		}
 	}
@@ -362,7 +363,7 @@ func c12Worker(c *Ctx) {
 	for _, ci := range ana.Calls(fn) {
 		if cal := ana.StaticRepoCallee(ci.Common()); cal != nil {
 			t := b.CallTermAt(ci)
-			if matches("call<*>(slice(load(iaddr(_, bin<+>(ind<+1>(-1), 1))), call<github.com/iotaledger/iota.go/encoding/b1t6.EncodedLen>(len(p1)), none), bin<+>(ind<+64>(p2), conv<uint64>(bin<+>(ind<+1>(-1), 1))))", t) {
+			if matches("call<*>(slice(load(iaddr(_, bin<+>(ind<+1>(-1), 1))), call<github.com/iotaledger/iota.go/encoding/b1t6.EncodedLen>(len(p1)), none), bin<+>(ind<+"+WS+">(p2), conv<uint64>(bin<+>(ind<+1>(-1), 1))))", t) {
 				fill = true
 			}
 		}
